@@ -48,6 +48,28 @@ let handle line =
          if not idle then print_endline "?model-not-at-rest"
          else if a <> b then print_endline "?model-run-differs-from-outcome-list"
          else print_endline (String.concat " " a))
+    | ["wsf"; e; rq; rs; items] ->
+      (* fragmented messages: the client's frames in wire order, t<fin>:<len> text, c<fin>:<len> continuation, p:<len> ping,
+         o:<len> pong, r:<n> n unframed bytes.  The reader never looks at payload bytes: they are zeros here. *)
+      let c = { max_request = n_of_string rq; max_response = n_of_string rs } in
+      let zeros k = List.init (int_of_string k) (fun _ -> byte_of_int 0) in
+      let item s = match String.split_on_char ':' s with
+        | ["t0"; k] -> WData (true, false, zeros k) | ["t1"; k] -> WData (true, true, zeros k)
+        | ["c0"; k] -> WData (false, false, zeros k) | ["c1"; k] -> WData (false, true, zeros k)
+        | ["p"; k] -> WPing (zeros k) | ["o"; k] -> WPong (zeros k)
+        | ["r"; k] -> WRaw (n_of_string k)
+        | _ -> failwith "bad frame item" in
+      let fs = if items = "-" then [] else List.map item (String.split_on_char ',' items) in
+      (match ws_frag_session (ep_of e) c fs with
+       | None -> print_endline "-"
+       | Some evs ->
+         print_endline (String.concat " " (List.map (function
+           | FDispatched t -> "D:" ^ string_of_int (List.length t)
+           | FTooBig l -> "T:" ^ hex_of_bytes (too_big_request_frame l)
+           | FPong p -> "P:" ^ string_of_int (List.length p)
+           | FProtoErr -> "E"
+           | FDesync -> "Z"
+           | FStalled -> "S") evs)))
     | ["http"; e; rq; rs; cl; frames] ->
       let c = { max_request = n_of_string rq; max_response = n_of_string rs } in
       let cl = if cl = "-" then None else Some (n_of_string cl) in
